@@ -567,7 +567,7 @@ run_lm_threads(const Plan& p, sim::Result& res)
   sc::Params sp1;
   sp1.threads = 1;
   LmOut ref = lm_scenario(p, pr, 1, sp1);
-  const long est = sc::stats().yields;
+  const long est = sc::stats().yields, est_syncs = sc::stats().syncs;
   sc::Params sp;
   sp.threads = threads;
   sp.strategy = (int)p.c("strategy", sc::RANDOM_WALK);
@@ -577,6 +577,10 @@ run_lm_threads(const Plan& p, sim::Result& res)
   sp.est_yields = est > 0 ? est : 100000;
   sp.seed = (uint64_t)p.c("sched_seed", 1);
   sp.max_yields = est > 0 ? est * 60 + 2000000 : 0;
+  sp.pct_sync = p.c("pct_sync", 0) != 0;
+  sp.park_event = (int)p.c("park_event", 0);
+  sp.park_k = (int)p.c("park_k", 1);
+  sp.est_syncs = std::max<long>(10, est_syncs);
   LmOut par = lm_scenario(p, pr, threads, sp);
   const sc::Stats st = sc::stats();
   set_num_threads(1);
@@ -591,6 +595,8 @@ run_lm_threads(const Plan& p, sim::Result& res)
     sim::probe("thread_blocked_on_lock_or_critical", st.lock_blocked);
   if (st.idle_threads)
     sim::probe("thread_received_no_chunk", st.idle_threads);
+  if (st.parked)
+    sim::probe(("park_event_fired_kind_" + std::to_string(sp.park_event)).c_str(), st.parked);
   if (st.worker_exceptions)
     sim::fail("lm_threads:exception", "an exception escaped from a parallel region body in a worker thread");
   if (ref.v.size() != par.v.size() || ref.d.size() != par.d.size())
@@ -654,6 +660,11 @@ gen(uint64_t seed, const std::string& tier, long idx)
   p.cfg["p_exp"] = r.range(13, 50);
   p.cfg["rr_k"] = r.range(1, 500);
   p.cfg["sched_seed"] = (long)r.below(1L << 40);
+  p.cfg["park_event"] = r.chance(0.5) ? 0 : r.range(1, 4);
+  p.cfg["park_k"] = p.cfg["park_event"] == 4 ? r.range(1, 8) : r.range(1, 3);
+  p.cfg["pct_sync"] = r.chance(0.5);
+  if (p.cfg["pct_sync"])
+    p.cfg["pct_d"] = r.range(2, 4);
   (void)idx;
 #else
   static const char* cls[] = { "histogram", "histogram", "eof", "cutoff", "lm_gradient", "lm_gradient" };
